@@ -55,12 +55,14 @@ PROBES = [
     "second_save_same_npz", "save_accumulate_save_load", "negative_sum_saved", "keyless_after_keyless",
     "overwrite_false_existing", "overwrite_true_existing", "preseeded_archive", "compressed", "raw_reload",
     "npy_reload", "npz_reload", "save_empty", "cross_accumulator_path", "suffix_text_in_directory",
+    "accumulate_on_loaded_instance", "save_with_warnings_as_errors",
 ]
 FAULT_KINDS = ["prior_content_numpy_archive", "prior_content_compressed_archive", "prior_content_own_save",
                "prior_content_npy", "prior_content_raw"]
 
 # targets, some below directories whose names contain the suffix text (the path is data too)
-PATHS = ["s0.npy", "s1.npz", "s2.npz", "s3.bin", "s4stats", "exp.npz.d/s5.npz", "feats.npy/s6.npy", "run.1/raw.npz.stats"]
+PATHS = ["s0.npy", "s1.npz", "s2.npz", "s3.bin", "s4stats", "exp.npz.d/s5.npz", "feats.npy/s6.npy", "run.1/raw.npz.stats",
+         "S7.NPY", "s8.Npz"]  # the last two are raw binary: only the exact suffixes '.npy' / '.npz' select numpy formats
 
 
 def _kind(p):
@@ -105,7 +107,7 @@ def generate(rng, tier, k):
             used[a] += m
         elif r < 0.62:
             p = rng.randrange(len(PATHS))
-            op = {"op": "save", "a": a, "p": p}
+            op = {"op": "save", "a": a, "p": p, "werr": rng.random() < 0.15}
             if _kind(p) == "npz":
                 op["key"] = rng.choice((None, None, "k1", "stats", "arr_0", "arr_1"))
                 op["compress"] = rng.random() < 0.35
@@ -115,7 +117,8 @@ def generate(rng, tier, k):
         elif r < 0.85:
             cands = list(saved) or [rng.randrange(len(PATHS))]
             p = rng.choice(cands)
-            ops.append({"op": "load", "p": p, "which": rng.choice(("last", "last", "any")), "pick": rng.randrange(1 << 16)})
+            ops.append({"op": "load", "p": p, "which": rng.choice(("last", "last", "any")), "pick": rng.randrange(1 << 16),
+                        "then_accumulate": rng.random() < 0.3})
         elif r < 0.9:
             ops.append({"op": "save_empty", "p": rng.randrange(len(PATHS))})
         else:
@@ -322,7 +325,10 @@ def _run(scn, d, base, res, tr):
                 res.probe("save_accumulate_save_load")
             try:
                 with warnings.catch_warnings():
-                    warnings.simplefilter("ignore")
+                    # a caller that runs with warnings as errors: saving is silent on the unchanged tree
+                    warnings.simplefilter("error" if op.get("werr") else "ignore")
+                    if op.get("werr"):
+                        res.probe("save_with_warnings_as_errors")
                     accs[a].save(path, **kw)
             except Exception as e:
                 fail("SAVE_RAISES", "save(%s%s) onto %s raised %s: %s" % (
@@ -419,6 +425,15 @@ def _run(scn, d, base, res, tr):
                 return
             loaded_after_save = True
             sig.append("L%s" % pk[0:2])
+            if op.get("then_accumulate"):
+                # the loaded instance goes on accumulating: the file (and any later load of it) must not notice
+                res.probe("accumulate_on_loaded_instance")
+                try:
+                    inst.accumulate(np.full(d, 3.25))
+                    inst.accumulate(np.arange(2 * d, dtype=np.float64).reshape(2, d) - 1.5)
+                except Exception as e:
+                    fail("RAISES", "accumulate on a loaded instance raised %s: %s" % (type(e).__name__, e), phase="load")
+                    return
     res.signature = "".join(sig) if len(sig) < 3 else ",".join(sig)
     res.nontrivial = loaded_after_save
 
